@@ -176,6 +176,19 @@ class Gen:
             else:
                 while ops and ops[-1]["op"] not in ("timeout", "native"):
                     ops.pop()
+        # zero delays: a pause of no duration right behind a real one - the process stays at its
+        # instant (ties stay causal), but `timeout(0)` / `time + 0` take branches of their own
+        with_zero = []
+        for op in ops:
+            with_zero.append(op)
+            if op["op"] == pause and op.get("d") and rng.random() < 0.1:
+                zero = {"op": pause, "d": 0}
+                if pause == "timeout" and rng.random() < 0.5:
+                    self.serial += 1
+                    zero["value"] = "z%d" % self.serial
+                with_zero.append(zero)
+                self.features.add("zero-delay")
+        ops = with_zero
         spec = {"name": name, "ops": ops}
         if name in self.natives:
             spec["native"] = True
@@ -238,6 +251,10 @@ def _generate(rng, tier):
             gen.features.add("entered-late")
         # the environment must outlive the native activities that use its events
         processes.append({"name": "keeper", "ops": [{"op": "timeout", "d": 1024}]})
+    if rng.random() < 0.5:
+        # every Process object gets a callback: "a Process is an event" whose callbacks run once
+        scenario["process_callbacks"] = True
+        gen.features.add("process-callbacks")
     r = rng.random()
     if embedded:
         pass
@@ -298,7 +315,10 @@ def valid(case):
         for i, op in enumerate(ops):
             kind = op["op"]
             if kind in PAUSES:
-                delays.append(op["d"])
+                if op["d"]:
+                    delays.append(op["d"])         # (zero delays only extend a real pause)
+                elif i == 0 or ops[i - 1]["op"] not in PAUSES:
+                    return False
             elif kind == "cond":
                 members(op)
             if kind in ACTIONS:
@@ -422,6 +442,20 @@ def _until_event_fails(scenario):
     return False
 
 
+def _native_names(scenario):
+    names = set()
+
+    def scan(spec):
+        if spec.get("native"):
+            names.add(spec["name"])
+        for op in spec.get("ops", ()):
+            if op.get("op") == "spawn":
+                scan(op["proc"])
+    for spec in scenario.get("processes", ()):
+        scan(spec)
+    return names
+
+
 def compare(rec, scenario):
     out = []
 
@@ -500,7 +534,10 @@ def compare(rec, scenario):
                 % (actor, i, got[i] if i < len(got) else "nothing",
                    want[i] if i < len(want) else "nothing"))
     for label in sorted(set(callbacks) | set(model.callbacks)):
-        if label.startswith(("proc:", "cond", "native:")):
+        if label.startswith(("cond", "native:")):
+            continue
+        if label.startswith("proc:") and (not scenario.get("process_callbacks")
+                                          or label[5:] in _native_names(scenario)):
             continue
         got = cut([("cb", t) for t in callbacks.get(label, [])])
         want = cut([("cb", t) for t in model.callbacks.get(label, [])])
